@@ -354,6 +354,9 @@ class _Beam(_IModel):
         f = simu.Get_K_C_M_F()[3]
         u = simu._Get_u_n(simu.problemType, asCsrMatrix=True)
         integral = (u.T @ f)[0, 0]
+        # the simulation is a throw-away: the section must not keep it as an observer
+        # (its local forms cannot be pickled, so a Beam simulation could not be saved).
+        section._Remove_observer(simu)
         kappa = bending_inertia**2 / (section.area * integral)
         return kappa
 
